@@ -391,6 +391,7 @@ func Run(c *run.Ctx) {
 	phase("mathlift", func() { mathLiftCases(c) })
 	phase("funcs", func() { funcsCases(c, forKeys) })
 	phase("layout", func() { layoutCases(c) })
+	phase("redefinition", func() { redefinitionCases(c) })
 	phase("conc", func() { concurrent(c, forKeys, c.N(320, 4000)) })
 	phase("live", func() { live(c) })
 	phase("clock", func() { clockValues(c) })
